@@ -25,7 +25,8 @@ CHECKS = [
               '(5 thorough) over a 24-token alphabet and (D3) single-token corruptions of the 4200 corpus strings are classified '
               'by the reference reader: valid strings must be accepted and equal, hard-invalid ones rejected, and only '
               'ValueError subclasses may escape; thorough adds atheris coverage-guided campaigns on smiles() and smarts() with '
-              'the same oracle inside the target.',
+              'the same oracle inside the target.'
+              ' Atom maps (none / all / dense partial subsets) are written in molecule and reaction text and must become the atom numbers.',
          note='Trusted: vf/oracles/smiles_ref.py (reference reader + writer), RDKit; grey-zone strings are only required to '
               'return a well-formed object or raise ValueError. D2 is exhaustive for its alphabet and length bound only.',
          technique='grammar/graph-directed generation + exhaustive token enumeration + atheris coverage-guided fuzzing against a reference reader and RDKit'),
@@ -34,7 +35,8 @@ CHECKS = [
               'to common neighbours; 93k states quick, all 118 elements and charges -4..+4 thorough) plus generated whole '
               'molecules: the hydrogen count is re-derived from the raw element tables by an independent interpreter, '
               'check_valence() must report exactly the atoms without a state, RDKit must agree on every centre/atom both accept, '
-              'and formula/charge/radical/mass totals are recomputed.',
+              'and formula/charge/radical/mass totals are recomputed.'
+              ' Isotopic and plain hydrogen atoms attached through the API, then explicify/implicify: every count is re-derived and totals must not move.',
          note='Trusted: the re-implementation of the documented table semantics (vf/oracles/valence_ref.py) and RDKit valence '
               'model as independent judge for common chemistry; consistent edits of exotic data tuples outside RDKit are a stated limit.',
          technique='exhaustive enumeration of centre states + property-based molecules against a table re-derivation and RDKit differential'),
@@ -43,7 +45,8 @@ CHECKS = [
               'plus corpus/curated/literal/constructive molecules) are converted back and forth: invariants of kekule()/thiele() '
               '(completeness, valence, connectivity, formula, charges, radicals, per-atom H, idempotence, round trip), every '
               'enumerated Kekule form valid/distinct/complete against the perfect-matching count and aromatising to one form, '
-              'atom-wise equality of the aromatic form under a drawn rebuild/renumbering, RDKit resonance equivalence.',
+              'atom-wise equality of the aromatic form under a drawn rebuild/renumbering, RDKit resonance equivalence.'
+              ' The same conversions are repeated on one object with drawn reads (string, compiled structure, queries, ring set) in between: cache state must not influence the forms.',
          note='Trusted: independent perfect-matching counter (exact only for C / pyridine-N systems, applied only there), MCB '
               'uniqueness oracle, RDKit. Tautomer fixing is held off for per-atom clauses (documented behaviour).',
          technique='property-based testing with a constructive ring-system generator; invariant, round-trip, metamorphic (renumbering) and differential (matching count, RDKit) oracles'),
@@ -52,7 +55,8 @@ CHECKS = [
               'in quick; n = 7 complete and n = 8 with <= 3 rings in thorough) plus generated ring assemblies, macrocycles, corpus '
               'and curated polycycles under random renumbering with coordinate bonds added: ring count, simple cycles of '
               'existing bonds, GF(2) independence, minimum total size against an independent minimum-cycle-basis computation, '
-              'and agreement of atom/bond ring marks, ring counts and components with the reported set.',
+              'and agreement of atom/bond ring marks, ring counts and components with the reported set.'
+              ' Two-assembly molecules (separate components, bonded, linked) exercise the molecule-wide ring count.',
          note='Trusted: vf/oracles/mcb.py (bridge/block finder, exhaustive simple-cycle enumeration, GF(2) elimination). The '
               'recorded theta-type gap is excluded from the minimality clause by an independent structural predicate and counted.',
          technique='exhaustive small-graph enumeration + property-based ring assemblies against an independent minimum cycle basis oracle'),
@@ -61,7 +65,8 @@ CHECKS = [
               'flags, 46 + 19 SMARTS incl. ring closures on cage-like targets, multi-component patterns, drawn scopes, both filter '
               'settings - are compared with an exhaustive reference enumeration of all injective maps satisfying the four stated '
               'clauses (set equality, no duplicates, one mapping per image set, scope restriction, operator agreement); '
-              'lazy_product is compared with itertools.product.',
+              'lazy_product is compared with itertools.product.'
+              ' A metallacycle mode spells ring patterns from every ring atom of targets with Pt/Hg/Pb/Sn ring atoms.',
          note='Trusted: brute-force embedding enumerator (vf/oracles/iso.py) bounded to targets <= 24 / patterns <= 8 atoms; leaf '
               'predicates are the library atom/bond __eq__ (their meaning is decided in C08).',
          technique='differential property-based testing against an exhaustive reference enumerator'),
@@ -71,7 +76,8 @@ CHECKS = [
               'atoms / ordered pairs selected by an independently computed attribute vector (adjacency-derived neighbours, '
               'heteroatoms, hybridisation; independent ring oracle; stored charge/isotope/radical/H); stereo-marked queries are '
               'tested against both enantiomers; every bracket token string up to 3 tokens and every bond token is enumerated for '
-              'the reject-or-query clause, with a list of out-of-subset SMARTS that must raise the invalid-SMARTS error.',
+              'the reject-or-query clause, with a list of out-of-subset SMARTS that must raise the invalid-SMARTS error.'
+              ' A periodic-table sweep checks element, #n, two- and three-member element lists drawn over the whole table, A and M on one- and three-atom molecules of every element.',
          note='Trusted: the documented default semantics of query atoms (charge 0 / non-radical unless given, empty = any, ~ = special '
               'bond), the ring oracle (ring-size primitives only where the minimum cycle basis is unique), an explicit metal list '
               '(ambiguous elements not used).',
@@ -80,7 +86,8 @@ CHECKS = [
          text='Differential testing of the two matcher configurations on generated (query, molecule) pairs (C07/C08 generators incl. '
               'ring closures on cage-like targets, scopes, both filter settings) and an exhaustive bit-layout sweep (every element x '
               'tabulated isotope x charge x radical with exact and one-attribute-off queries; neighbour/heteroatom 0-14, H 0-4, '
-              'hybridisation 1-4, ring sizes 3-66).',
+              'hybridisation 1-4, ring sizes 3-66).'
+              ' Per element additionally: A, M and element lists, and five-membered ring queries numbered from three different atoms on a ring containing that element.',
          note='The compiled configuration is the repository .pyx source executed by a transliterator with C integer semantics and '
               'bounds-checked pointers (no Cython here): source-level defects are in reach, compiler-level effects are not. '
               'Documented exclusions (Lv/Ts/Og, rings > 65) are skipped and counted.',
@@ -99,7 +106,8 @@ CHECKS = [
          text='Configuration sweep over fresh interpreter processes with six PYTHONHASHSEED values on a generated sample of molecules: '
               'twelve derived values (canonical string, orderings, ring set, fingerprints, ordered match lists of 12 SMARTS, '
               'canonicalize() result, pack bytes, ...) are each computed uncached, cached, on a copy and on a second fresh object '
-              'in the opposite order; all digests must agree within and across processes.',
+              'in the opposite order; all digests must agree within and across processes.'
+              ' canonicalize / standardize_charges / neutralize are applied to a cold and to a warmed fresh object and must agree.',
          note='Only hash-seed / process / cache-order dependence observable on this platform within six seeds is detectable; '
               'hash(molecule) is excluded by the property text (string hash).',
          technique='configuration-sweep property-based testing (metamorphic: same input, different process/hash seed/cache order)'),
@@ -120,7 +128,8 @@ CHECKS = [
               'and (where the layout encodes it) cis/trans configuration; the V2000 block is read by RDKit (wedge convention); '
               'RDKit-written V2000/V3000 blocks of corpus molecules are read; one record of a multi-record file is damaged in '
               'three ways; random access on disk equals sequential reading; repository files give the delimiter-counted number '
-              'of records.',
+              'of records.'
+              ' Whether a drawing encodes a label is decided geometrically from the stored coordinates at record precision, never by the library.',
          note='Trusted: RDKit mol block reader/writer as the independent program (drug-like closed-shell molecules only); stereo is '
               'asserted only where the 2D layout can encode it (non-degenerate wedges, cis/trans reproduced from coordinates) and for '
               'centres without explicit hydrogens.',
@@ -131,7 +140,8 @@ CHECKS = [
               'with every ordering; (2) exhaustive enumeration of SMILES spellings of one centre / one double bond (neighbour order, '
               'centre position, H in/outside the bracket, ring-closure neighbours, second component, / \\ placements, dienes, '
               'cumulenes, oximes) judged by RDKit and by mutual equality; (3) single-label inversion never gives an equal molecule, '
-              'RDKit agrees; (4) marks on non-stereogenic centres are dropped.',
+              'RDKit agrees; (4) marks on non-stereogenic centres are dropped.'
+              " The library's own writer in eight styles on labelled molecules up to 18 atoms is judged by RDKit against the spelling of the independent writer.",
          note='Trusted: parity from permutation cycles, RDKit as the independent toolkit for the absolute convention (carbon centres, '
               'simple double bonds); pseudo-asymmetric and meso situations are excluded from clause (3) by the symmetry oracle.',
          technique='exhaustive permutation/spelling enumeration + property-based testing with parity and RDKit oracles'),
@@ -141,7 +151,8 @@ CHECKS = [
               'explicify/implicify) interleaved with reads of drawn subsets of 14 derived values; after every step the molecule is '
               'compared with an independently rebuilt one (fresh container, same numbers/insertion order, labels through the '
               'public setters), adjacency symmetry, rollback restoration and source independence are asserted. Histories are plain '
-              'operation lists, so a failure shrinks and replays as one value.',
+              'operation lists, so a failure shrinks and replays as one value.'
+              ' Exhaustive tier: every ordered pair of 117 concrete operations on 8 seeds of <= 4 atoms, with all values read after every step and with single rotating reads (219k histories thorough, 1/40 slice quick).',
          note='Trusted: the rebuild operator and the C01 symmetry oracle / MCB oracle used to skip values that legitimately depend '
               'on the perceived ring set or fall in documented canonicalisation gaps (counted).',
          technique='model-based (stateful) property-based testing with an independent rebuild as reference model'),
@@ -151,7 +162,8 @@ CHECKS = [
               'standardize_charges, explicify/implicify, enumerate_tautomers): conservation of heavy atoms / charge / hydrogens '
               '(neutralize balanced), no valence error or exception, idempotence, explicify-implicify inverse, numbering '
               'independence, tautomer-set properties; all 122 documented (spelling, canonical spelling) pairs of the rule tests, '
-              'also under two renumberings, with fired rule indices recorded.',
+              'also under two renumberings, with fired rule indices recorded.'
+              " Geminal double instances of a documented spelling are grafted; the rule tables' Any-atom lists decide whether one call must finish both.",
          note='Trusted: canonical strings for numbering independence (C01 gaps skipped); documented pairs are read from the '
               'repository\'s own rule tests with ast. Rule instances/grafted spellings are only held to heavy-atom conservation, '
               'idempotence and numbering independence because the tables correct hydrogens/charges of mis-spellings on purpose.',
@@ -161,7 +173,8 @@ CHECKS = [
               'change / formed / cleaved, charge, radical, atom leaving / joining) give the product side, 0-2 reagents, empty '
               'roles; molecules are permuted inside roles and both sides renumbered consistently. Canonical reaction string '
               'invariance, SMILES read-back of roles and molecules (plain and mapped), every atom and bond of the condensed '
-              'graph against the ground truth, empty centre for identical sides and invariance of the condensed-graph string.',
+              'graph against the ground truth, empty centre for identical sides and invariance of the condensed-graph string.'
+              ' Symmetry of a condensed graph is decided by the independent refinement/orbit oracle on the dynamic labelled graph.',
          note='Trusted: the ground truth is the generator\'s own edit list; molecule identity within roles uses canonical strings '
               '(C01 gaps skipped) and only for valence-valid reactions.',
          technique='property-based testing with constructed ground truth (reference model = the edit list) and metamorphic permutation/renumbering relations'),
@@ -186,7 +199,8 @@ CHECKS = [
          text='Exhaustive enumeration of the finite domain (118 elements x all tabulated isotopes + unspecified x charge '
               '-4..+4 x radical): lookups against a literal standard table, table-key consistency, mass computability, '
               'pack round trip and independent decoding of the matcher bit layout for every triple. Complete for the '
-              'stated finite domain, so exploration here is exhaustive.',
+              'stated finite domain, so exploration here is exhaustive.'
+              " The exact query atom of every state is compiled, compared word for word with the documented layout and tested against every molecule-side state of the element with the matcher's q & m == m rule.",
          note='Trusted: the literal symbol table in the check, the pyx transliterator (no compiled extension in this '
               'sandbox), the independent bit-layout decoder written from the documented layout.',
          technique='exhaustive enumeration of the finite element/isotope/charge domain with round-trip and independent-decoder oracles'),
